@@ -70,6 +70,11 @@ CHECKS = {
     technique="TLA+ specification of regex-AST matching and first-match selection over the real enumeration table, enumerated by TLC; the (kind, pattern, expected) table and seeded arbitrary byte strings are run against the real device manager and judged by the TLA+ observation spec DeviceSelectObs in TLC",
     text="DeviceSelect.tla defines whole-name, case-insensitive matching of a regex AST (literals, classes, any, grouping, star/plus/opt, concatenation, alternation) twice (span-splitting and position automaton, checked to agree), Render(ast) and Select(kind, ast) = first enumerated index of that kind; the enumeration table is read from the real device_manager at run time. TLC enumerates every canonical AST up to size 5 (6 thorough) and emits expected results; the harness runs them, case-flipped / NUL-padded / length-limited variants, select_first/default, every index incl. out of range, opens every identifier, and 10^4 (10^5) seeded arbitrary / malformed byte strings in supervised child processes against the real device.manager.cpp + loader.c + the common driver .so built from the tree, in stagings with absent / broken / duplicate / synthetic driver libraries; DeviceSelectObs judges every event (exact rule in the modelled grammar, weak rule 'error or an enumerated device of that kind, never a crash/exception' elsewhere).",
     note="Trusted: TLC; libstdc++ regex only through the code under test; exact expectations only for the modelled grammar and size bounds; pathological backtracking patterns are recorded as SLOW, never judged; embedded NUL bytes in a pattern get the weak rule."),
+ "C13": dict(
+    category="model_checking", design_ref="DESIGN.md section 6 (C13), section 15",
+    technique="TLA+ model checking (TLC on PropsImpl: abstract heap, all call sequences to a bounded depth) bound to storage.c by replay of every exported transition and by TLC trace validation (PropsObs) of allocator + projection traces recorded through a malloc/realloc/free link seam",
+    text="PropsImpl.tla models init/set_uri/set_external_metadata/set_access_key_and_secret/set_dimension/set_enable_multiscale/copy/destroy over 2-3 objects with an abstract heap (allocation ids never reused, live flags, who points where), seven caller-string kinds (NULL, empty, short, long, unterminated, zero-byte, NULL-with-length, borrowed) and 0..2 dimensions; TLC explores all call sequences to depth 3-6 (4-8 thorough) and checks no sharing, every free hits a live cell, nothing dangling or leaked, strings terminated, copy leaves the source unchanged and dst equal. All exported transitions plus simulated walks are replayed into the real functions (projection compared per step); every execution (incl. an ASan-instrumented build and seeded random sequences with both a never-reuse and a LIFO-reuse allocator policy) is judged by PropsObs in TLC.",
+    note="Trusted: TLC; the link-time allocator seam (only allocations made inside library calls are recorded); init only on objects that own nothing, copy only between distinct objects; allocation failure is not injected; exhaustive for <= 3 objects, <= 2 dimensions, the seven string kinds to the stated depths."),
 }
 
 def main():
